@@ -162,6 +162,101 @@ static void emit_run(Out& o, double v, const Rec& r, const Call& c)
 
 std::string handle(const std::string& op, Args& a)
 {
+	if(op == "c14.regobj")
+	{
+		// ONE region vector object reused by a sequence of Integrate_MC calls (it is taken by non-const reference), some of
+		// them abandoned late (the integrand throws at its k-th evaluation); after every call: is the vector still bitwise
+		// what was passed in?  Integrand 7 returns the sum of the entries of the CALLER's region vector as it reads it
+		// during the integration (a constant iff the integrator leaves the vector alone).
+		//    d  region  nitems  ( C | A k )  method seed ncalls fid params ...
+		int d		= (int) a.i64();
+		auto region0 = a.dbls();
+		if((int) region0.size() != 2 * d)
+			throw BadArgs("region size");
+		size_t ni = a.u64();
+		struct It
+		{
+			bool abandon;
+			long long k;
+			Call c;
+		};
+		std::vector<It> items(ni);
+		for(auto& it : items)
+		{
+			std::string m = a.tok();
+			if(m != "C" && m != "A")
+				throw BadArgs("item mode");
+			it.abandon	= m == "A";
+			it.k		= it.abandon ? a.i64() : 0;
+			it.c.method = a.tok();
+			it.c.seed	= (unsigned) a.u64();
+			it.c.ncalls = (int) a.i64();
+			it.c.fid	= (int) a.i64();
+			it.c.p		= a.dbls();
+			it.c.d		= d;
+			it.c.region = region0;
+		}
+		a.end();
+		auto run_on = [&](std::vector<double>& region, const It& it, Rec& rec, bool& seen_changed) {
+			rec.init(d);
+			g_seed = it.c.seed;
+			std::function<double(std::vector<double>&, const double)> f = [&](std::vector<double>& x, const double) {
+				rec.see(x);
+				if(memcmp(region.data(), region0.data(), region0.size() * sizeof(double)) != 0)
+					seen_changed = true;
+				if(it.abandon && rec.calls >= it.k)
+					throw Abandon();
+				if(it.c.fid == 7)
+				{
+					double s = 0.0;
+					for(double v : region)
+						s += v;
+					return s;
+				}
+				return fam(it.c.fid, d, x.data(), it.c.p, x.size());
+			};
+			double v = NAN;
+			try
+			{
+				v = Integrate_MC(f, region, it.c.ncalls, it.c.method);
+			}
+			catch(const Abandon&)
+			{
+			}
+			return v;
+		};
+		// each completed call alone on a pristine vector in a fresh process (reference), then the whole sequence on one object
+		std::string res = "ok";
+		std::string seq = run_forked([&](Out& o) {
+			std::vector<double> region = region0;
+			for(auto& it : items)
+			{
+				Rec rec;
+				bool seen = false;
+				double v	= run_on(region, it, rec, seen);
+				bool intact = memcmp(region.data(), region0.data(), region0.size() * sizeof(double)) == 0;
+				o << v << rec.calls << (int) intact << (int) seen << (int) rec.inside(std::vector<double>(region0.begin(), region0.begin() + d), std::vector<double>(region0.begin() + d, region0.end()));
+			}
+		});
+		if(seq.substr(0, 2) != "ok")
+			return seq;
+		res += seq.substr(2);
+		for(auto& it : items)
+		{
+			if(it.abandon)
+				continue;
+			std::string one = run_forked([&](Out& o) {
+				std::vector<double> region = region0;
+				Rec rec;
+				bool seen = false;
+				o << run_on(region, it, rec, seen) << rec.calls;
+			});
+			if(one.substr(0, 2) != "ok")
+				return one;
+			res += " ref" + one.substr(2);
+		}
+		return res;
+	}
 	if(op == "c14.outer")
 	{
 		// STATISTIC, not a property clause: an outer call whose integrand runs another complete integration at its k-th
